@@ -665,7 +665,7 @@ def applyMarks (s : St) (marks : List (BitVec 32)) : St :=
   { s with inflight := s.inflight.map fun c => if marks.contains c.tsn && !c.acked && !s.abandoned c then { c with retransmit := true } else c }
 
 inductive SackRes | ok | stale | notEstablished | rejected | failedLate
-  deriving BEq, Repr, Inhabited
+  deriving BEq, Repr, Inhabited, DecidableEq
 
 /-- the end of `processAcknowledgement`: queue and counters as left by the two loops, the cumulative point,
 congestion control, then the per-stream releases -/
@@ -701,7 +701,7 @@ def sack (s : St) (cum arwnd : BitVec 32) (gaps : List (BitVec 16 × BitVec 16))
   else if sna32GT s.cumAck cum then (s, .stale)
   else if !validate s cum gaps then (s, .rejected)
   else match ackPhase s cum gaps with
-    | none => (s, .failedLate)                      -- see `ackPhase`; the model does not describe the half-updated state
+    | none => (s, .failedLate)                      -- unreachable from reachable states (`C15_sack_atomic`); the model does not describe the half-updated state
     | some r =>
       let f := fastRetransCheck (setPeerWindow r.1 arwnd) cum gaps r.2.1 r.2.2
       if !f.2 then (f.1, .failedLate)
